@@ -148,7 +148,7 @@ pub fn gen_map(r: &mut Rng, big: bool) -> Map {
     for i in 0..nt {
         let tc = i == 0 || r.chance(1, 3);
         let bl = if tc {
-            r.pick(&["500", "333.33", "1000", "6", "60000", "250.5"]).to_string()
+            r.pick(&["500", "333.33", "1000", "6", "60000", "250.5", "-50", "-200"]).to_string()
         } else {
             r.pick(&["-100", "-50", "-200", "-10", "-1000", "-10000", "-5", "-133.33"]).to_string()
         };
